@@ -5,6 +5,7 @@ go 1.23
 toolchain go1.23.5
 
 require (
+	github.com/safing/jess v0.3.3
 	github.com/safing/portbase v0.18.6
 	github.com/tidwall/sjson v1.2.5
 	pgregory.net/rapid v1.3.0
@@ -35,7 +36,6 @@ require (
 	github.com/mitchellh/reflectwalk v1.0.2 // indirect
 	github.com/mr-tron/base58 v1.2.0 // indirect
 	github.com/pkg/errors v0.9.1 // indirect
-	github.com/safing/jess v0.3.3 // indirect
 	github.com/satori/go.uuid v1.2.0 // indirect
 	github.com/seehuhn/fortuna v1.0.1 // indirect
 	github.com/seehuhn/sha256d v1.0.0 // indirect
